@@ -171,11 +171,58 @@ def write_replay(prop, kind, payload):
     return path
 
 
+def fails_in_fresh_process(prop, payload):
+    """Replays a payload in a fresh interpreter; True when the failure shows there."""
+    d = os.path.join(VERIF, 'build', 'tmp')
+    os.makedirs(d, exist_ok=True)
+    path = os.path.join(d, 'ctx-%d.json' % os.getpid())
+    pl = dict(payload)
+    pl['property'] = prop
+    with open(path, 'w') as f:
+        json.dump(pl, f)
+    try:
+        p = subprocess.run([sys.executable, os.path.abspath(__file__), '--replay', path], stdout=subprocess.PIPE,
+                           stderr=subprocess.PIPE, timeout=300, env=dict(os.environ))
+        return p.returncode == 1
+    except Exception:   # noqa
+        return False
+    finally:
+        try:
+            os.remove(path)
+        except OSError:
+            pass
+
+
+def add_context(prop, payload, trail):
+    """A violation seen in a process that had run other cases before: find what the replay needs. Nothing when the case
+    fails alone; else one earlier case that suffices (most recent first); else everything that ran before."""
+    if fails_in_fresh_process(prop, payload):
+        return
+    for c in list(reversed(trail))[:60]:
+        cand = dict(payload)
+        cand['before'] = [c]
+        if fails_in_fresh_process(prop, cand):
+            payload['before'] = [c]
+            return
+    cand = dict(payload)
+    cand['before'] = trail[-4000:]
+    if fails_in_fresh_process(prop, cand):
+        payload['before'] = cand['before']
+    else:
+        payload['replay_note'] = 'seen in the checking process only; not reproduced by replaying the recorded cases'
+
+
 def main(argv):
     if len(argv) >= 2 and argv[0] == '--replay':
         payload = json.load(open(argv[1]))
         prop = payload['property']
         mod = importlib.import_module('props.' + prop.lower())
+        # cases that ran earlier in the same process and are needed to show the failure
+        for b in payload.get('before', []):
+            try:
+                mod.replay(b)
+            except Exception:   # noqa
+                pass
         ok, msg = mod.replay(payload)
         print(('HOLDS ' if ok else 'FAILS ') + msg)
         return 0 if ok else 1
@@ -234,7 +281,10 @@ def main(argv):
             continue
         seen_keys.add(key)
         payload = dict(v)
+        at = payload.pop('_at', None)
         payload['property'] = prop
+        if at is not None and getattr(rep, 'trail', None) is not None:
+            add_context(prop, payload, rep.trail[:at])
         path = write_replay(prop, 'input', payload)
         out_lines.append('VIOLATION property=%s replay=%s' % (prop, path))
         exit_code = 1
